@@ -302,8 +302,8 @@ def run(ctx):
         if not r3.ok:
             raise vf.Infra("SilkDecCore_mc/slack3: %s" % r3.violation)
     wit = {}
-    for cfg, inv, meaning in T["witness"]:
-        w = vf.tlc("SilkDecCore_mc", cfg, workers=2, env=env, deadlock=True, heap="3g", timeout=600)
+    wres = vf.parallel(lambda w: vf.tlc("SilkDecCore_mc", w[0], workers=2, env=env, deadlock=True, heap="3g", timeout=600), T["witness"], 3)
+    for (cfg, inv, meaning), w in zip(T["witness"], wres):
         if w.error or w.violation != inv:
             raise vf.Infra("SilkDecCore_mc witness %s: expected %s to be refuted, got %s %s" % (cfg, inv, w.violation, w.error))
         ctx.add_tlc(w, "mc SilkDecCore_mc/%s (expected refutation of %s)" % (cfg, inv))
